@@ -46,13 +46,21 @@ Names    == DOMAIN Par
 OkTypes  == {"A", "CNAME", "TXT", "AAAA"}      \* types accepted by checkRecord
 TypeSeq  == <<"A", "CNAME", "SOA", "TXT", "AAAA">>  \* storage order (type byte 1,5,6,16,28)
 
-RECURSIVE Sufs(_)
-Sufs(n)  == IF Par[n] = Nil THEN <<n>> ELSE <<n>> \o Sufs(Par[n])   \* n, parent, ..., TLD
-Level(n) == Len(Sufs(n))
-Anc(n)   == {Sufs(n)[i] : i \in 2..Level(n)}
-TLDOf(n) == Sufs(n)[Level(n)]
+\* (tables instead of operators: TLC evaluates constant definitions once)
+RECURSIVE SufsR(_)
+SufsR(n) == IF Par[n] = Nil THEN <<n>> ELSE <<n>> \o SufsR(Par[n])   \* n, parent, ..., TLD
+SufsF    == [n \in Names |-> SufsR(n)]
+AncF     == [n \in Names |-> {SufsF[n][i] : i \in 2..Len(SufsF[n])}]
+BelowF   == [n \in Names |-> {m \in Names : n \in AncF[m]}]
+Sufs(n)  == SufsF[n]
+Level(n) == Len(SufsF[n])
+Anc(n)   == AncF[n]
+TLDOf(n) == SufsF[n][Len(SufsF[n])]
 NT       == {n \in Names : Par[n] # Nil}
-Below(n) == {m \in Names : n \in Anc(m)}
+Below(n) == BelowF[n]
+\* the value of a singleton set; {F(x) : x \in {e}} binds x to the *value* of e (an operator argument
+\* is re-evaluated at every use when TLC evaluates a primed expression)
+The(S)   == CHOOSE x \in S : TRUE
 RecKeys  == {k \in NT \X NT \X OkTypes : k[1] = k[2] \/ k[1] \in Anc(k[2])}
 
 VARIABLES now, roots, ns, supply, bal, idx, rec, soa, ev
@@ -156,7 +164,7 @@ Register(S, via, n, o, m, x) ==
                 /\ idx' = i1 \cup {<<o, n>>}
                 /\ UNCHANGED <<now, roots, rec>>
                 /\ Halt("register", S, via, n, o, m, x, Nil, Nil, "true", 0,
-                        <<Ntf("Transfer", n, old, o, 0, 0)>>)
+                        <<Ntf("Transfer", n, old, o, 1, 0)>>)
   ELSE Fault("register", S, via, n, o, m, x, Nil, Nil)
 
 \* Transfer(to, tokenID, data): no parent check, only the name's own expiration
@@ -174,7 +182,7 @@ Transfer(S, via, n, o) ==
                ELSE UNCHANGED <<ns, bal, idx>>
             /\ UNCHANGED <<now, roots, supply, rec, soa>>
             /\ Halt("transfer", S, via, n, o, Nil, 0, Nil, Nil, "true", 0,
-                    <<Ntf("Transfer", n, from, o, 0, 0)>>)
+                    <<Ntf("Transfer", n, from, o, 1, 0)>>)
   ELSE Fault("transfer", S, via, n, o, Nil, 0, Nil, Nil)
 
 \* Renew(name, years)
@@ -237,20 +245,23 @@ AddRecord(S, via, n, ty, d) ==
        ELSE Fault("addRecord", S, via, n, Nil, Nil, 0, ty, d)
   ELSE Fault("addRecord", S, via, n, Nil, Nil, 0, ty, d)
 
-\* SetRecord(name, typ, id, data): no duplicate check in the code
-SetRecord(S, via, n, ty, id, d) ==
+\* SetRecord(name, typ, id, data).  The code has no duplicate check ("SetDuplicate" \in D); with the
+\* switch off the operator describes the repaired method (a value already stored at another id is refused)
+SetRecordD(D, S, via, n, ty, id, d) ==
   LET W   == Wit(S, via)
       tok == Token(n)
   IN
   IF RecordOK(n, ty, W)
   THEN LET L == rec[<<tok, n, ty>>] IN
-       IF id >= 0 /\ id < Len(L) /\ ("SetDuplicate" \in Dev \/ \A i \in 1..Len(L) : i # id + 1 => L[i] # d)
+       IF id >= 0 /\ id < Len(L) /\ ("SetDuplicate" \in D \/ \A i \in 1..Len(L) : i # id + 1 => L[i] # d)
        THEN /\ rec' = [rec EXCEPT ![<<tok, n, ty>>] = [L EXCEPT ![id + 1] = d]]
             /\ soa' = Touch(tok)
             /\ UNCHANGED <<now, roots, ns, supply, bal, idx>>
             /\ Halt("setRecord", S, via, n, Nil, Nil, id, ty, d, "null", 0, NoNtf)
        ELSE Fault("setRecord", S, via, n, Nil, Nil, id, ty, d)
   ELSE Fault("setRecord", S, via, n, Nil, Nil, id, ty, d)
+
+SetRecord(S, via, n, ty, id, d) == SetRecordD(Dev, S, via, n, ty, id, d)
 
 \* DeleteRecords(name, typ): any type but SOA (an unknown type deletes nothing)
 DeleteRecords(S, via, n, ty) ==
@@ -339,8 +350,8 @@ AllFrom(tok, n, i) ==
   ELSE LET ty == TypeSeq[i]
            me == IF ty = "SOA" THEN (IF tok = n /\ soa[n].ex THEN <<[ty |-> "SOA", d |-> "SOA"]>> ELSE <<>>)
                  ELSE [j \in 1..Len(rec[<<tok, n, ty>>]) |-> [ty |-> ty, d |-> rec[<<tok, n, ty>>][j]]]
-       IN  me \o AllFrom(tok, n, i + 1)
-MAll(D, n) == IF ReadOK(D, n) THEN [ok |-> TRUE, v |-> AllFrom(Token(n), n, 1)] ELSE FailL
+       IN  me \o The({AllFrom(tok, n, j) : j \in {i + 1}})
+MAll(D, n) == IF ReadOK(D, n) THEN [ok |-> TRUE, v |-> The({AllFrom(tok, n, 1) : tok \in {Token(n)}})] ELSE FailL
 
 \* resolve(ctx, res, name, typ, redirect): getAllRecords(ctx, name, nil) uses the token's fragments
 RECURSIVE MRes(_, _, _, _)
@@ -351,7 +362,7 @@ MRes(n, ty, k, acc) ==
        ELSE LET mine == rec[<<tok, n, ty>>]
                 cn   == rec[<<tok, n, "CNAME">>]
             IN  IF cn = <<>> \/ ty = "CNAME" THEN [ok |-> TRUE, v |-> acc \o mine]
-                ELSE MRes(cn[Len(cn)], ty, k - 1, acc \o mine)
+                ELSE The({MRes(x, ty, k - 1, a) : x \in {cn[Len(cn)]}, a \in {acc \o mine}})
 
 ApiModel(D) ==
   [supply |-> supply,
@@ -408,7 +419,7 @@ GConflict(G, n) == ConflictIn(G.rec, n)
 
 \* ---------------------------------------------------------------- C10 ----
 RECURSIVE SumF(_, _)
-SumF(f, D) == IF D = {} THEN 0 ELSE LET x == CHOOSE y \in D : TRUE IN f[x] + SumF(f, D \ {x})
+SumF(f, D) == IF D = {} THEN 0 ELSE The({f[x] + SumF(f, D \ {x}) : x \in {CHOOSE y \in D : TRUE}})
 
 \* totalSupply = number of non-TLD names ever registered = sum of balanceOf
 C10_Supply(H, api) ==
@@ -451,7 +462,7 @@ C10_Announced(G, H, e) ==
       Cnt(n) == Cardinality({i \in 1..Len(T) : T[i].n = n})
   IN  /\ \A n \in must : Cnt(n) = 1
       /\ \A i \in 1..Len(T) :
-           /\ T[i].n \in NT /\ Cnt(T[i].n) = 1
+           /\ T[i].n \in NT /\ Cnt(T[i].n) = 1 /\ T[i].x = 1
            /\ \/ /\ T[i].n \in must
                  /\ T[i].a = (IF G.reg[T[i].n].ex THEN G.reg[T[i].n].owner ELSE Nil)
                  /\ T[i].b = H.reg[T[i].n].owner
@@ -527,10 +538,10 @@ GRes(H, t, n, ty, links, acc) ==
   ELSE LET mine == GList(H, t, n, ty)
            cn   == GList(H, t, n, "CNAME")
        IN  IF cn = <<>> \/ ty = "CNAME" THEN [kind |-> "ok", links |-> links, v |-> acc \o mine]
-           ELSE GRes(H, t, cn[Len(cn)], ty, links + 1, acc \o mine)
+           ELSE The({GRes(H, t, x, ty, links + 1, a) : x \in {cn[Len(cn)]}, a \in {acc \o mine}})
 
 C12_ResolveOne(H, t, n, ty, ans) ==
-  LET r == GRes(H, t, n, ty, 0, <<>>) IN
+  \A r \in {GRes(H, t, n, ty, 0, <<>>)} :
   CASE r.kind = "long" -> ~ans.ok                                 \* four or more links, cycles: must fail
     [] r.kind = "ok" /\ r.links <= 2 -> Shows(ans, r.v, TRUE)     \* up to two links: exactly the records
     [] r.kind = "dead" /\ r.links = 0 -> ~ans.ok \/ ans.v = <<>>  \* expired / unregistered: unreachable
